@@ -74,6 +74,39 @@ def rule_update(F, R):
         if sorted(w[1] for w in writes) != want_fields:
             R.bad("R-C19-1", inst, f.loc(), "update writes %s, expected exactly %s" % (sorted(w[1] for w in writes), want_fields))
             continue
+        # all-or-nothing: nothing that may throw (a domain test, a delegated update, a throw) is reachable after the first store into the parameter
+        throwing = list(crit) + [c for c in f.calls(lambda n: callee(n).split("::")[-1] == "update" and n is not None)] + [x for x in f.nodes() if x["k"] == "throw"]
+        cfg_ = f.cfg
+        late = None
+        for wn, wname, _ in writes:
+            ww = cfg_.where_enclosing(wn)
+            for t_ in throwing:
+                tw = cfg_.where_enclosing(t_)
+                if ww is None or tw is None or any(z is t_ for z in walk(wn)):
+                    # a throwing call nested in the stored expression itself is evaluated before the store
+                    continue
+                # reachable after the store: same block later position, or a block reachable from the store's block
+                after = (tw[0] == ww[0] and tw[1] > ww[1])
+                if not after:
+                    seen, todo = set(), [s_ for s_ in cfg_.blocks[ww[0]].succ if s_ >= 0]
+                    while todo:
+                        b_ = todo.pop()
+                        if b_ in seen:
+                            continue
+                        seen.add(b_)
+                        todo.extend(s_ for s_ in cfg_.blocks[b_].succ if s_ >= 0)
+                    after = tw[0] in seen
+                if after:
+                    late = (wname, t_)
+                    break
+            if late:
+                break
+        R.check(late is None, "R-C19-1", inst + " all-or-nothing", f.loc(late[1]) if late else f.loc(), "every test that can reject the assignment precedes the first store",
+                "`%s` can still throw after `%s` has been overwritten: a rejected assignment leaves part of the new value stored (a pair half old, half new - possibly "
+                "outside its ordering constraint) instead of the previous value" % (pp(late[1])[:50] if late else "", late[0] if late else ""))
+        if len(crit) != 1 and any(callee(c).split("::")[-1] == "update" for c in f.calls()):
+            R.incomplete("R-C19-1", inst, f.loc(), "the domain test is delegated to other update() overloads: not followed")
+            continue
         if len(crit) != 1:
             R.bad("R-C19-1", inst, f.loc(), "expected exactly one throwing domain test, found %d" % len(crit))
             continue
